@@ -438,23 +438,12 @@ class SimWorld(Cluster):
         if et.startswith("fault.crash:"):
             self.record_stop(self.idx[et.split(":", 1)[1]], now)
         elif et.startswith("start:"):
-            # start() shuffled the probe order of that node: part of the initial state
+            # start() of a node with an offset: an environment step of its own (it shuffles the probe order)
             i = int(et.split(":", 1)[1])
             p = self.proj(i)
-            if self.last[i] != p:
-                if self.last[i] | {"order": p["order"]} == p and not any(s["n"] == i and s["a"] == "tick" for s in self.steps):
-                    self._late_init(i, p)
+            self.steps.append({"a": "start", "n": i, "t": now, "tg": 0, "m": NOMSG, "post": p, "out": []})
+            self.last[i] = p
         self.frame(now)
-
-    def _late_init(self, i, p):
-        """A node started at an offset: its initial probe order becomes known only then.  No tick of the node
-        has run, and no handler reads the order before the first tick, so the order is back-filled into
-        the initial state and the earlier posts of that node."""
-        self.init[i - 1] = dict(self.init[i - 1], order=p["order"])
-        for s in self.steps:
-            if s["n"] == i and s["a"] in ("ping", "ack", "inj", "frame", "stop"):
-                s["post"] = dict(s["post"], order=p["order"])
-        self.last[i] = p
 
 
 # ---------------------------------------------------------------------------
